@@ -253,6 +253,14 @@ def check_cart(ctx, case):
     pts.append((L.ex[0] - 3 * L.fdh, L.ey[0], edges[0], None, 0, 1))
     pts.append((L.ex[0], L.ey[-1] + 3 * L.fdh, edges[0], None, 0, 1))
     ctx.count("lookups", len(pts))
+    # requests the library refuses, made on the forecast's region before the lookups (not judged): a catalog gridded with explicit
+    # magnitude bins of its own, holding an event below them / outside the region
+    if pts:
+        x0, y0 = pts[0][0], pts[0][1]
+        other_bins = numpy.array([float(e) + 0.37 * float(hm) for e in edges])
+        for refused in (lambda: CSEPCatalog(data=[("low", 0, y0, x0, 1.0, float(edges[0]) - 1.0)], region=fore.region).spatial_magnitude_counts(mag_bins=other_bins),
+                        lambda: CSEPCatalog(data=[("out", 0, L.ey[0] - 3.75, L.ex[0] - 7.25, 1.0, float(edges[0]))], region=fore.region).spatial_magnitude_counts(mag_bins=other_bins)):
+            call(refused)
     good = []
     for (x, y, mv, k, mb, si) in pts:
         c1 = dict(case, only_point=[x, y, mv])
@@ -292,6 +300,20 @@ def check_cart(ctx, case):
             elif sure:
                 ctx.violation(bucket("lookup_inside_box_rejected", None), {"pt": [x, y, mv], "cell": k, "flag": flags[k] if k is not None else None,
                                                                              "region_dh": float(region.dh)}, c1)
+    # ---- a lookup, a refused lookup of the same size (magnitude below the grid), the first lookup again: the same rates
+    for gi in range(0, len(good), max(1, len(good) // 6)):
+        x, y, mv, want = good[gi]
+        args = (numpy.array([x]), numpy.array([y]), numpy.array([mv]))
+        o1 = call(fore.get_rates, *args)
+        call(fore.get_rates, numpy.array([x]), numpy.array([y]), numpy.array([float(edges[0]) - 1.0]))
+        o2 = call(fore.get_rates, *args)
+        ctx.count("lookups_repeated_after_a_refused_one")
+        if not (o1.ok and o2.ok):
+            ctx.unexpected(o1 if not o1.ok else o2, "get_rates:around_a_refused_lookup", dict(case, only_point=[x, y, mv]))
+        elif ctx.normalize("get_rates:around_a_refused_lookup", lambda: (float(o1.value[0]), float(o2.value[0]))) is not None and \
+                (abs(float(o2.value[0]) - want) > RT[0] * abs(want) or float(o1.value[0]) != float(o2.value[0])):
+            ctx.violation("lookup_changes_after_a_refused_lookup", {"pt": [x, y, mv], "first": float(o1.value[0]), "again": float(o2.value[0]), "want": want},
+                          dict(case, only_point=[x, y, mv]))
     # ---- vector lookup of all accepted probe points at once (points in arbitrary order)
     good = good[::-1][1::2] + good[::-1][0::2]   # not in cell order
     if len(good) >= 2:
